@@ -423,7 +423,7 @@ pub fn assess(b: &Built) -> Option<Assessment> {
     let aux_hash = body.map_get(7).and_then(|n| n.as_bytes());
     table(
         "aux-data-hash",
-        match (&aux_hash, aux.is_null()) {
+        match (&aux_hash, aux.is_null() || aux.kind == Node::undefined().kind) {
             (None, true) => false,
             (Some(h), false) => h[..] != blake2b_256(aux.span(&b.tx))[..],
             _ => true,
@@ -644,7 +644,7 @@ pub fn fields(b: &Built, change_ix: Option<usize>) -> Option<BTreeMap<String, Ve
     }
     let parts = view.root.as_array()?;
     m.insert("valid".into(), parts[2].to_vec());
-    if !parts[3].is_null() {
+    if !parts[3].is_null() && parts[3].kind != Node::undefined().kind {
         m.insert("aux".into(), parts[3].to_vec());
     }
     Some(m)
